@@ -286,21 +286,40 @@ class S:
         r = self.r
         return ("cmp", r.choice(list(CMP)), ("v", r.choice(self.inames)), ("i", r.randint(0, 9)))
 
-    def expr(self, d, snames):
+    def expr(self, d, snames, ivars=()):
         r = self.r
-        if d <= 0 or r.random() < 0.45:
+        if d <= 0 or r.random() < 0.35:
             return ("v", r.choice(snames)) if snames and r.random() < 0.55 else self.lit()
-        return ("ite", self.cond(), self.expr(d - 1, snames), self.expr(d - 1, snames))
+        k = r.choice(["ite", "cat", "cat", "cat", "str", "str", "strs"])
+        if k == "ite":
+            return ("ite", self.cond(), self.expr(d - 1, snames, ivars), self.expr(d - 1, snames, ivars))
+        if k == "str":
+            # `str(e)` of an int-typed expression whose Python value is an int (never a bool: `str(True)` is "True", `String(true)` is "1")
+            return ("str", G(r).int_expr(r.choice([0, 1, 1, 2]), self.inames + list(ivars)))
+        if k == "strs":
+            return ("str", self.expr(d - 1, snames, ivars))
+        a, b = self.expr(d - 1, snames, ivars), self.expr(d - 1, snames, ivars)
+        if a[0] != "s" and cstr(a) and cstr(b):
+            # `const char* + const char*` does not compile (the emitter wraps only a LITERAL left operand): outside `Expr.wt`
+            b = ("str", b)
+        return ("bin", "add", a, b)
 
-    def stmt(self, snames):
+    def stmt(self, snames, ivars=()):
         r = self.r
-        k = r.choice(["wr", "wr", "wr", "as", "as", "swap"])
+        k = r.choice(["wr", "wr", "wr", "as", "as", "swap", "aug"])
         if k == "swap" and len(snames) >= 2:
             a, b = r.sample(snames, 2)
             return ("tup", [a, b], [("v", b), ("v", a)])
         if k == "as" and snames:
-            return ("as", r.choice(snames), self.expr(2, snames))
-        return ("wr", self.expr(2, snames))
+            return ("as", r.choice(snames), self.expr(2, snames, ivars))
+        if k == "aug" and snames:
+            return ("aug", r.choice(snames), "add", self.expr(1, snames, ivars))
+        return ("wr", self.expr(2, snames, ivars))
+
+
+def cstr(e):
+    """the emitted C++ expression is a `const char*` (mirrors `Expr.cstr`)"""
+    return e[0] == "s" or (e[0] == "ite" and cstr(e[2]) and cstr(e[3]))
 
 
 def add_strings(prog, ndecl, names, promote):
@@ -317,30 +336,30 @@ def add_strings(prog, ndecl, names, promote):
     for i, n in enumerate(snames):
         decls.append(("as", n, r.choice([g.lit(), g.lit(), g.expr(1, snames[:i]), ("ite", ("cmp", "lt", ("i", r.randint(0, 5)), ("i", 3)), g.lit(), g.lit())])))
 
-    def inner(st):
+    def inner(st, iv):
         k = st[0]
         if k == "if":
             els = st[3]
             if len(els) == 1 and els[0][0] == "if":
-                els = [inner(els[0])]          # an `elif` chain stays a chain: nothing is put next to the inner `if`
+                els = [inner(els[0], iv)]      # an `elif` chain stays a chain: nothing is put next to the inner `if`
             elif els:
-                els = walk(els)
-            return ("if", st[1], walk(st[2]), els)
+                els = walk(els, iv)
+            return ("if", st[1], walk(st[2], iv), els)
         if k == "for":
-            return ("for", st[1], st[2], walk(st[3]))
+            return ("for", st[1], st[2], walk(st[3], iv + (st[1],)))
         if k == "seqw":
             w = st[2]
-            return ("seqw", st[1], ("while", w[1], walk(w[2])))
+            return ("seqw", st[1], ("while", w[1], walk(w[2], iv)))
         return st
 
-    def walk(block):
+    def walk(block, iv=()):
         out = []
         for st in block:
             if r.random() < 0.22:
-                out.append(g.stmt(snames))
-            out.append(inner(st))
+                out.append(g.stmt(snames, iv))
+            out.append(inner(st, iv))
         if r.random() < 0.3:
-            out.append(g.stmt(snames))
+            out.append(g.stmt(snames, iv))
         return out
 
     pre = prog["pre"][:ndecl] + decls + walk(prog["pre"][ndecl:])
@@ -388,6 +407,7 @@ def py_expr(e):
     if k == "ite": return f"({py_expr(e[2])} if {py_expr(e[1])} else {py_expr(e[3])})"
     if k == "abs": return f"abs({py_expr(e[1])})"
     if k in ("min", "max"): return f"{k}({', '.join(py_expr(a) for a in e[1])})"
+    if k == "str": return f"str({py_expr(e[1])})"
     if k == "raw": return e[1]
     raise ValueError(e)
 
@@ -453,6 +473,7 @@ def sx_expr(e):
     if k == "not": return f"(not {sx_expr(e[1])})"
     if k == "ite": return f"(ite {sx_expr(e[1])} {sx_expr(e[2])} {sx_expr(e[3])})"
     if k == "abs": return f"(abs {sx_expr(e[1])})"
+    if k == "str": return f"(str {sx_expr(e[1])})"
     if k in ("min", "max"):
         acc = sx_expr(e[1][0])
         for a in e[1][1:]:
